@@ -117,6 +117,16 @@ def netns_available():
     return _netns
 
 
+def test_init_flake(log):
+    """cmd/keymasterd's auth_oauth2_test.go init(): `go http.ListenAndServe("127.0.0.1:12345")`, Sleep(20ms),
+    http.Get, logger.Fatal on error. Under load the listener is not up after 20 ms and the test binary exits 1
+    before running anything ("about to start server" + connection refused, no test output). A start-up race of the
+    repository's test scaffolding, not a behaviour of the code under test: harness/keymasterd/00_verif_prelisten_test.go
+    removes it (binds the port synchronously first); this predicate is the second line of defence (re-run)."""
+    return ("about to start server" in log and "localhost:12345" in log and "connection refused" in log
+            and "--- FAIL" not in log and "=== RUN" not in log)
+
+
 class GlobalLock:
     def __init__(self, path):
         self.path = path
@@ -374,7 +384,7 @@ def harness_packages():
 
 
 def overlay_file(ctx):
-    """overlay.json mapping every /verif/harness/<pkgdir>/zz_verif_*.go into /repo/<pkg path>."""
+    """overlay.json mapping every /verif/harness/<pkgdir>/*.go into /repo/<pkg path>."""
     rep = {}
     for d, pkg in harness_packages().items():
         hd = os.path.join(HARNESS, d)
@@ -414,13 +424,20 @@ def run_harness(ctx, pkg, test, ops, timeout=900, extra_env=None, race=False, ta
     # test binaries of that package must never share a loopback. Preferred: a private network
     # namespace per run (no lock, runs in parallel); fallback: a machine-wide flock + retry.
     if netns_available():
-        rc, log = sh(NETNS_PREFIX + cmd, cwd=REPO, env=env, timeout=timeout + 120)
+        for attempt in range(4):
+            rc, log = sh(NETNS_PREFIX + cmd, cwd=REPO, env=env, timeout=timeout + 120)
+            if rc != 0 and not os.path.exists(out_path) and test_init_flake(log):
+                # the package's own test init() gave up before any test ran (see test_init_flake)
+                ctx.notes.append("harness %s/%s: the package's own test init() lost its 20 ms start-up race; re-run" % (pkg, test))
+                time.sleep(1 + attempt)
+                continue
+            break
     else:
         for attempt in range(4):
             with GlobalLock("/tmp/.verif-gotest.lock"):
                 rc, log = sh(cmd, cwd=REPO, env=env, timeout=timeout + 120)
             if rc != 0 and not os.path.exists(out_path) and (
-                    "dependency_monitor_test.go" in log or "address already in use" in log):
+                    "dependency_monitor_test.go" in log or "address already in use" in log or test_init_flake(log)):
                 time.sleep(3 + 4 * attempt)
                 continue
             break
